@@ -3,6 +3,7 @@ import SeqVerif.Consistency.BinSearch
 import SeqVerif.Consistency.BinSearchSort
 import SeqVerif.Consistency.Borders
 import SeqVerif.Consistency.Collector
+import SeqVerif.Consistency.CollectorRun
 import SeqVerif.Consistency.DocBytes
 import SeqVerif.Consistency.DocBytesReplay
 import SeqVerif.Consistency.DocPos
